@@ -53,7 +53,9 @@ SUMMARY = {
 }
 
 FIRST_OVERRIDE = {"C01-2": {"C01": False, "C02": False}, "C08-2": {"C08": False, "C03": False}, "C10-1": {"C10": False, "C19": False},
-                  "C10-2": {"C10": False}, "C11-1": {"C11": False, "C14": False}}
+                  "C10-2": {"C10": False}, "C11-1": {"C11": False, "C14": False},
+                  # C06-1: the first run was killed by another agent's machine-wide pkill; the program that catches it did not exist yet
+                  "C06-1": {"C06": False, "C17": False}}
 props = {json.loads(l)["id"]: json.loads(l) for l in open("/verif/properties.jsonl")}
 rows = []
 for p in sorted(props):
